@@ -2,6 +2,7 @@ package main
 
 import (
 	"fmt"
+	"go/ast"
 	"go/constant"
 	"go/token"
 	"go/types"
@@ -49,7 +50,8 @@ type Exec struct {
 	fn       *ssa.Function
 	key      string
 	con      *Contract
-	cons     []*Contract // con + refined contracts
+	cons     []*Contract // con + included + refined contracts
+	ownCons  int         // the first ownCons entries of cons are the contract and its includes
 	loops    map[*ssa.BasicBlock]*Loop
 	ordinal  map[ssa.Instruction]int
 	paths    []*PathScript
@@ -168,6 +170,21 @@ func (st *State) check(name, kind string, t Term, desc string, props []string, p
 	if len(o.Props) == 0 && ex.con != nil {
 		o.Props = ex.con.Props
 	}
+	if ex.con != nil {
+		if pc := ex.prog.PC[ex.con.PkgPath]; pc != nil && pc.KindProps != nil {
+			for _, p := range pc.KindProps[kind] {
+				dup := false
+				for _, q := range o.Props {
+					if q == p {
+						dup = true
+					}
+				}
+				if !dup {
+					o.Props = append(append([]string(nil), o.Props...), p)
+				}
+			}
+		}
+	}
 	if t.S == "true" {
 		o.Trivial = true
 		o.Status = "unsat"
@@ -221,10 +238,24 @@ func (ex *Exec) bindSelf(st *State, c *Contract, e *Env) {
 		e.vars[c.Recv.Name] = BVal{Val: st.vals[params[0]], Type: params[0].Type()}
 		i = 1
 	}
-	if len(c.Params) != len(params)-i {
-		ex.abort("STALE-CONTRACT: %s declares %d parameters, function has %d", c.Name, len(c.Params), len(params)-i)
+	cparams := c.Params
+	if c.Kind == "interface" && len(c.Params) == len(params)-i+1 {
+		// interface-method contract checked against a plain function/closure: the receiver binder is this function value
+		key := "self:" + c.Target
+		sv, ok := st.ghost[key]
+		if !ok {
+			t := ex.typeOfBinder(c, c.Params[0])
+			sv = st.sc.fresh("self", st.u().sortOf(t))
+			st.sc.assert(neq(sv, st.u().zero(sv.Sort)))
+			st.ghost[key] = sv
+		}
+		e.vars[c.Params[0].Name] = BVal{Val: sv}
+		cparams = c.Params[1:]
 	}
-	for k, b := range c.Params {
+	if len(cparams) != len(params)-i {
+		ex.abort("STALE-CONTRACT: %s declares %d parameters, function has %d", c.Name, len(cparams), len(params)-i)
+	}
+	for k, b := range cparams {
 		e.vars[b.Name] = BVal{Val: st.vals[params[i+k]], Type: params[i+k].Type()}
 	}
 	if len(c.Captures) > 0 {
@@ -297,16 +328,27 @@ func (ex *Exec) run() (err error) {
 	}
 	ex.cons = nil
 	if ex.con != nil {
-		ex.cons = append(ex.cons, ex.con)
+		ex.cons = append(ex.cons, ex.prog.expandContract(ex.con)...)
+		ex.ownCons = len(ex.cons)
 		for _, r := range ex.con.Refines {
 			rc := ex.prog.Contracts[r]
 			if rc == nil {
 				ex.abort("refines unknown contract %s", r)
 			}
-			ex.cons = append(ex.cons, rc)
+			for _, x := range ex.prog.expandContract(rc) {
+				dup := false
+				for _, y := range ex.cons {
+					if y == x {
+						dup = true
+					}
+				}
+				if !dup {
+					ex.cons = append(ex.cons, x)
+				}
+			}
 		}
 	}
-	for _, c := range ex.cons {
+	for ci, c := range ex.cons {
 		e := ex.envFor(st, c)
 		ex.bindSelf(st, c, e)
 		ex.bindLets(c, e)
@@ -314,7 +356,7 @@ func (ex *Exec) run() (err error) {
 			st.sc.comment("requires %s", cl.Text)
 			st.sc.assert(e.eval(cl.Expr))
 		}
-		if c == ex.con {
+		if ci < ex.ownCons {
 			for _, cl := range c.Assigns {
 				ex.assign = append(ex.assign, e.evalAssigns(cl.Expr)...)
 			}
@@ -322,6 +364,18 @@ func (ex *Exec) run() (err error) {
 	}
 	// entry snapshot
 	st.entry = copyMap(st.heap)
+	// ghost updates at entry
+	for _, c := range ex.cons {
+		if len(c.GEntry) == 0 {
+			continue
+		}
+		e := ex.envFor(st, c)
+		ex.bindSelf(st, c, e)
+		ex.bindLets(c, e)
+		for _, g := range c.GEntry {
+			ex.ghostUpdate(st, e, g)
+		}
+	}
 	ex.walk(st, fn.Blocks[0], nil)
 	return nil
 }
@@ -635,4 +689,32 @@ func (ex *Exec) runLemma() (err error) {
 	st.check("cover/return", "cover", tFalse, "vacuity probe: the lemma's hypotheses are satisfiable (expected sat)", nil, token.NoPos)
 	ex.finishPath(st, "lemma")
 	return nil
+}
+
+// ghostUpdate executes `NAME = EXPR` (optionally guarded) on a ghost variable.
+func (ex *Exec) ghostUpdate(st *State, e *Env, g *Clause) {
+	var v *types.Var
+	switch t := g.Target.Expr.(type) {
+	case *ast.Ident:
+		v, _ = e.info.Uses[t].(*types.Var)
+	case *ast.SelectorExpr:
+		v, _ = e.info.Uses[t.Sel].(*types.Var)
+	}
+	if v == nil || v.Pkg() == nil || v.Parent() != v.Pkg().Scope() {
+		ex.abort("ghost update target %s is not a package-level ghost variable", g.Label)
+	}
+	if !isGhostName(v.Name()) {
+		ex.abort("ghost update of %s: only variables named Ghost*/ghost* may be assigned by contracts", v.Name())
+	}
+	l := st.globalLoc(v)
+	nv := e.eval(g.Expr)
+	if nv.Sort != st.u().sortOf(v.Type()) && st.u().sortOf(v.Type()) == SIface {
+		nv = st.makeIface(nv, e.typeOf(g.Expr))
+	}
+	if g.Cond != nil {
+		c := e.eval(g.Cond.Expr)
+		nv = ite(c, nv, st.loadLoc(st.heap, l))
+	}
+	st.sc.comment("ghost %s = %s", g.Label, g.Text)
+	st.storeLoc(l, nv)
 }
